@@ -3,7 +3,8 @@
    agreement with gokrb5 in both directions is the correspondence stream. *)
 From Gokrb5.lib Require Import Bytes JV.
 From Gokrb5.model Require Import Crypto.
-From Gokrb5.proofs Require Import CryptoBasic.
+From Gokrb5.prim Require CBC RC4.
+From Gokrb5.proofs Require Import CryptoBasic CTSProofs CryptoRoundTrip.
 
 Theorem C05_rc4_usage_alias : forall u,
   rc4_msg_type u = le_bytes 4 (rc4_alias u) /\ length (rc4_msg_type u) = 4%nat.
@@ -15,3 +16,44 @@ Theorem C05_rc4_msg_type_injective : forall u1 u2,
   (rc4_msg_type u1 = rc4_msg_type u2 <-> rc4_alias u1 = rc4_alias u2).
 Proof. exact rc4_msg_type_injective. Qed.
 Print Assumptions C05_rc4_msg_type_injective.
+
+(* ---- round trip: whatever the RFC model encrypts it decrypts to the same plaintext ----
+   The block cipher enters through its inverse property only (premise); RC4 needs none. *)
+Theorem C05_cts_roundtrip : forall (enc dec : bytes -> bytes),
+  (forall b, length b = 16%nat -> dec (enc b) = b) ->
+  (forall b, length b = 16%nat -> length (enc b) = 16%nat) ->
+  forall d, (16 <= length d)%nat -> cts_decrypt dec (cts_encrypt enc d) = Ok d.
+Proof. exact cts_roundtrip. Qed.
+Print Assumptions C05_cts_roundtrip.
+
+Theorem C05_aes_sha1_roundtrip :
+  (forall ke b, length b = 16%nat -> aes_ecb_dec ke (aes_ecb ke b) = b) ->
+  forall et key usage conf msg ct,
+  et_family et = Some FAesSha1 -> length conf = 16%nat ->
+  encrypt_with et key usage conf msg = Ok ct -> decrypt et key usage ct = Ok msg.
+Proof. exact aes_sha1_roundtrip. Qed.
+Print Assumptions C05_aes_sha1_roundtrip.
+
+Theorem C05_aes_sha2_roundtrip :
+  (forall ke b, length b = 16%nat -> aes_ecb_dec ke (aes_ecb ke b) = b) ->
+  forall et key usage conf msg ct,
+  et_family et = Some FAesSha2 -> length conf = 16%nat ->
+  encrypt_with et key usage conf msg = Ok ct -> decrypt et key usage ct = Ok msg.
+Proof. exact aes_sha2_roundtrip. Qed.
+Print Assumptions C05_aes_sha2_roundtrip.
+
+(* des3: "up to the zero padding RFC 3961 prescribes" *)
+Theorem C05_des3_roundtrip :
+  (forall ke b, length b = 8%nat -> des3_ecb_dec ke (des3_ecb ke b) = b) ->
+  forall key usage conf msg ct,
+  length conf = 8%nat ->
+  encrypt_with 16 key usage conf msg = Ok ct ->
+  decrypt 16 key usage ct = Ok (msg ++ zeros ((8 - length (conf ++ msg) mod 8) mod 8)).
+Proof. exact des3_roundtrip. Qed.
+Print Assumptions C05_des3_roundtrip.
+
+Theorem C05_rc4_roundtrip : forall key usage conf msg ct,
+  length conf = 8%nat ->
+  encrypt_with 23 key usage conf msg = Ok ct -> decrypt 23 key usage ct = Ok msg.
+Proof. exact rc4_roundtrip. Qed.
+Print Assumptions C05_rc4_roundtrip.
